@@ -322,9 +322,12 @@ class Lexer(ITokenizer):
 			while index - 1 - escapes >= content_begin and source[index - 1 - escapes] == '\\':
 				escapes += 1
 
-			end = index + len(pair['close'])
 			if escapes % 2 == 0:
+				end = index + len(pair['close'])
 				break
+
+			# エスケープされているのは先頭の1文字のみ。三連引用符の場合、直後から本来の終端が始まり得る
+			end = index + 1
 
 		value = source[begin:end]
 		token_type = TokenTypes.Regexp if value[0] == '/' else TokenTypes.String
